@@ -70,7 +70,9 @@ ChkSynthesis(s, e, trk) ==
      (IF ok /\ e.rs = 0 /\ e.rb = 0 /\ e.W \in {0, 1} /\ e.avail # DecAvail(m1) THEN {"SamplesPerPacket"} ELSE {}) \cup
      (IF ok /\ s.pure /\ e.rs = 0 /\ e.rb = 0 /\ e.W \in {0, 1} /\ DecBlockinAllowed(s.mm) /\ e.avail # DecAvail(DecBlockin(s.B, s.mm, e.W, e.no, e.gp, e.eos = 1, ~trk)) THEN {"SamplesPerPacket"} ELSE {}) \cup
      (IF e.rs = 0 /\ e.rb = 0 /\ ~DecBufOK(s.B, Observed(e, e.hsp)) THEN {"BufferInsideRing"} ELSE {}) \cup
-     (IF e.rs = 0 /\ e.rb = 0 /\ e.avail < 0 THEN {"PendingNeverNegative"} ELSE {})
+     (IF e.rs = 0 /\ e.rb = 0 /\ e.avail < 0 THEN {"PendingNeverNegative"} ELSE {}) \cup
+     \* packets written by the model codeword by codeword: the decoder consumes exactly the bits the model wrote (it parsed the same codewords)
+     (IF ok /\ e.mut = 0 /\ e.rs = 0 /\ "xused" \in DOMAIN e /\ e.xused >= 0 /\ e.used # e.xused THEN {"PacketBitsConsumed"} ELSE {})
 DriftSynthesis(s, e, trk) ==
   IF s.nh = 3 /\ ~s.hsdirty /\ e.rs = 0 /\ e.rb = 0 /\ e.W \in {0, 1} /\ ~StateMatches(DecBlockin(s.B, s.m, e.W, e.no, e.gp, e.eos = 1, ~trk), e)
   THEN {"DecoderStateDiffersFromTranscription"} ELSE {}
